@@ -24,6 +24,13 @@
 (* In overlap mode (spec/RoutingSet.tla) Create / Set are the encoding and the sending of the         *)
 (* record's SET, overlapping with those of other tunnels: value class "...:overlap".                   *)
 (*                                                                                              *)
+(*   RefusedOpen  a second source-side open (DupOpen) for an id whose bridge exists on that node      *)
+(*            that was REFUSED changes nothing: the driver reads the record (fields, CreatedAt,        *)
+(*            ExpiresAt, the store's remaining key lifetime where it can be read) before and after     *)
+(*            the open and logs recSame / expSame.  An open the code ACCEPTED replaces the source      *)
+(*            end - nothing is demanded for the id from then on (two source ends for one id are        *)
+(*            outside the statement).  Whether the refusal itself is right is not this property's.     *)
+(*                                                                                              *)
 (* Registration and removal are logged either as single events (Register / Remove: RoutingTable  *)
 (* API level) or as the call-site steps the driver observed: Create (bridge in the map, the       *)
 (* record's Set issued), Set (the Set landed), TunnelEnd (bridge closed), Removed (the           *)
@@ -38,6 +45,7 @@
 (*   "period=1.5s|2.5s"       - waiting period that is not a whole number of seconds.              *)
 (* detail:  Resolve/<backend>:<what>:<value class>   what = notfound | expired | error |          *)
 (*          wrongnode | fields | addr                                                            *)
+(*          RefusedOpen/<backend>:<what>:<value class>:dup=<same|other>   what = fields | expiry   *)
 (*          Gone/<backend>:<why>                     why  = never | removed | lapsed | shutdown | *)
 (*                                                          ended:late-set (the record was       *)
 (*                                                          written after the removal had run)   *)
@@ -127,12 +135,27 @@ TrArrive == /\ Is("Arrive") /\ Ev.t \in Tunnels
             /\ viol' = viol \cup ArriveBad(Ev)
             /\ Step /\ UNCHANGED <<be, br, why, fl, rp>>
 
+\* ---- a second source-side open for a known id ----
+DupBad(e) ==
+  LET t == e.t
+      cls == br[t].cls \o ":dup=" \o e.k IN
+  IF br[t].on /\ br[t].node = e.n /\ e.r = "refused"
+  THEN (IF ~e.recSame THEN {V("RefusedOpen", be \o ":fields:" \o cls)} ELSE {})
+       \cup (IF ~e.expSame THEN {V("RefusedOpen", be \o ":expiry:" \o cls)} ELSE {})
+  ELSE {}
+TrDupOpen == /\ Is("DupOpen") /\ Ev.t \in Tunnels
+             /\ viol' = viol \cup DupBad(Ev)
+             \* an accepted second open: the source end was replaced, its end is "being processed" for good
+             /\ br' = IF Ev.r = "accepted" THEN [br EXCEPT ![Ev.t] = NoBridge] ELSE br
+             /\ rp' = IF Ev.r = "accepted" THEN [rp EXCEPT ![Ev.t] = TRUE] ELSE rp
+             /\ Step /\ UNCHANGED <<be, why, fl>>
+
 TrTargetGone == Is("TargetGone") /\ Step /\ UNCHANGED <<viol, be, br, why, fl, rp>>
 
 TrEnd == /\ Is("End") /\ EmitVerdict
          /\ l' = l + 1 /\ viol' = {} /\ be' = "?" /\ br' = [t \in Tunnels |-> NoBridge] /\ why' = [t \in Tunnels |-> "never"]
          /\ fl' = None /\ rp' = None
 
-Next == TrArrive \/ TrTargetGone \/ TrCfg \/ TrAnnounce \/ TrRegister \/ TrCreate \/ TrSet \/ TrTunnelEnd \/ TrRemoved \/ TrRemove \/ TrTick \/ TrLookup \/ TrEnd
+Next == TrArrive \/ TrDupOpen \/ TrTargetGone \/ TrCfg \/ TrAnnounce \/ TrRegister \/ TrCreate \/ TrSet \/ TrTunnelEnd \/ TrRemoved \/ TrRemove \/ TrTick \/ TrLookup \/ TrEnd
 Spec == Init /\ [][Next]_vars
 =============================================================================
